@@ -9,8 +9,7 @@ Proof.
   induction items as [|i items IH]; intros inb nw wf; [reflexivity|].
   destruct i; cbn [crecv processed]; try reflexivity.
   - cbn. rewrite IH. reflexivity.
-  - destruct (match wf with Some k => Nat.eqb k (S nw) | None => false end); [reflexivity|].
-    cbn. rewrite IH. reflexivity.
+  - destruct (match wf with Some k => Nat.eqb k (S nw) | None => false end); cbn; rewrite IH; reflexivity.
   - cbn. rewrite IH. reflexivity.
   - cbn. rewrite IH. reflexivity.
   - cbn. rewrite IH. reflexivity.
@@ -21,16 +20,23 @@ Lemma crecv_stanzas_once items inb nw wf :
 Proof. rewrite crecv_routed. reflexivity. Qed.
 
 Lemma crecv_answers items : forall inb nw wf,
-  answers (crecv inb nw wf items) = expected_answers inb (processed nw wf items).
+  attempted (crecv inb nw wf items) = expected_answers inb (processed nw wf items).
 Proof.
   induction items as [|i items IH]; intros inb nw wf; [reflexivity|].
   destruct i; cbn [crecv processed]; try reflexivity.
   - cbn. rewrite IH. reflexivity.
-  - destruct (match wf with Some k => Nat.eqb k (S nw) | None => false end); [reflexivity|].
-    cbn. rewrite IH. reflexivity.
+  - destruct (match wf with Some k => Nat.eqb k (S nw) | None => false end); cbn; rewrite IH; reflexivity.
   - cbn. rewrite IH. reflexivity.
   - cbn. rewrite IH. reflexivity.
   - cbn. rewrite IH. reflexivity.
+Qed.
+
+(* when no write fails every attempted answer is a written one *)
+Lemma crecv_answers_written items : forall inb nw,
+  answers (crecv inb nw None items) = attempted (crecv inb nw None items).
+Proof.
+  induction items as [|i items IH]; intros inb nw; [reflexivity|].
+  destruct i; cbn [crecv]; try reflexivity; cbn; rewrite ?IH; reflexivity.
 Qed.
 
 (* every expected answer is the session's starting count plus the stanzas before the request *)
@@ -128,10 +134,11 @@ Proof.
       * unfold count_stanzas. cbn [filter is_stanza length]. lia.
     + (* r *)
       destruct (match wf with Some k => Nat.eqb k (S nw) | None => false end) eqn:Ew.
-      * cbn [crecv processed]. rewrite Ew. cbn -[N.add]. repeat split; try reflexivity. right; right; right; left. f_equal. lia.
+      * apply (Hstep inb (S nw) [AWriteFail inb; ARouteAsync ISmR] ISmR); try reflexivity.
+        -- intros a [<-|[<-|[]]]; split; reflexivity.
+        -- cbn [crecv]. rewrite Ew. reflexivity.
       * apply (Hstep inb (S nw) [AWrite inb; ARouteAsync ISmR] ISmR); try reflexivity.
         -- intros a [<-|[<-|[]]]; split; reflexivity.
-        -- cbn [processed]. rewrite Ew. reflexivity.
         -- cbn [crecv]. rewrite Ew. reflexivity.
     + (* a *)
       apply (Hstep inb nw [ARouteAsync (ISmA h)] (ISmA h)); try reflexivity.
